@@ -358,7 +358,17 @@ fn history_child(log: &mut iso::Log, bin: &std::path::Path, src_name: &str, plan
     }
     let exit_evs = s.events.take();
     drop(s.dbg);
-    std::thread::sleep(std::time::Duration::from_millis(10));
+    // the forwarder thread may lag behind on a loaded machine: wait until the captured output has settled
+    let t0 = std::time::Instant::now();
+    let mut last = usize::MAX;
+    loop {
+        let n = s.out.lock().unwrap().len();
+        if (n == last && (n > 0 || t0.elapsed().as_millis() > 2000)) || t0.elapsed().as_millis() > 10_000 {
+            break;
+        }
+        last = n;
+        std::thread::sleep(std::time::Duration::from_millis(50));
+    }
     let out = String::from_utf8_lossy(&s.out.lock().unwrap()).to_string();
     log.put(json!({"ev": "final", "stdout": out, "evs": evs_json(&exit_evs)}));
 }
@@ -895,6 +905,17 @@ fn sigstep_child(log: &mut iso::Log, bin: &std::path::Path, kind: Kind) {
                 break;
             }
         }
+    }
+    // the forwarder thread may lag behind on a loaded machine: wait until the captured output has settled
+    let t0 = std::time::Instant::now();
+    let mut last = usize::MAX;
+    loop {
+        let n = s.out.lock().unwrap().len();
+        if (n == last && (n > 0 || t0.elapsed().as_millis() > 3000)) || t0.elapsed().as_millis() > 10_000 {
+            break;
+        }
+        last = n;
+        std::thread::sleep(std::time::Duration::from_millis(100));
     }
     let out = String::from_utf8_lossy(&s.out.lock().unwrap()).to_string();
     log.put(json!({"ev": "end", "patched_after_remove": patched2, "ghost_stops": ghost_stops, "signal_stops": signal_stops, "code": code, "stdout": out}));
